@@ -225,3 +225,34 @@ Theorem C10_no_mutable_package_state :
   StateInventory.rg_mutated g = false /\ StateInventory.rg_escapes g = false.
 Proof. apply StateInventory.pkg_state_ok_spec. vm_compute. reflexivity. Qed.
 Print Assumptions C10_no_mutable_package_state.
+
+(** Round 8 - WHICH outputs are data outputs.  The fee theorems above quote [sz_data] at the data rate and [sz_std] at
+    the standard rate; these say what lands in which: a script is a data script exactly when it begins with OP_RETURN
+    or OP_FALSE OP_RETURN - whatever follows (it need not parse as pushes), so a push of the byte 6a, OP_FALSE then
+    anything else, OP_RETURN further on are not - and every data output contributes its whole script to the data
+    bytes wherever it stands among the outputs and whatever it is worth (proofs/DataClassProofs.v). *)
+From GoBT Require proofs.DataClassProofs.
+Theorem C10_data_script_iff_marker : forall s,
+  is_data s = true <-> ((exists t, s = x6a :: t) \/ (exists t, s = x00 :: x6a :: t)).
+Proof. exact DataClassProofs.is_data_iff. Qed.
+Print Assumptions C10_data_script_iff_marker.
+
+Theorem C10_push_of_6a_is_not_data : forall t,
+  is_data (x01 :: x6a :: t) = false /\ is_data (x00 :: x01 :: x6a :: t) = false.
+Proof. exact DataClassProofs.push_of_6a_not_data. Qed.
+Print Assumptions C10_push_of_6a_is_not_data.
+
+Theorem C10_data_bytes_of_outputs : forall a o b,
+  data_len (a ++ o :: b) = data_len (a ++ b) + (if is_data (out_script o) then lenN (out_script o) else 0).
+Proof. exact DataClassProofs.data_len_insert. Qed.
+Print Assumptions C10_data_bytes_of_outputs.
+
+Theorem C10_size_split_is_data_len : forall t,
+  sz_data (size_with_types t) = data_len (tx_outs t) /\ sz_std (size_with_types t) = tx_size t - data_len (tx_outs t).
+Proof. exact DataClassProofs.size_with_types_data. Qed.
+Print Assumptions C10_size_split_is_data_len.
+
+(** non-vacuity: a data script whose tail is a push cut short (PUSHDATA2 announcing 65535 bytes, 2 follow), and a
+    look-alike *)
+Example C10_data_tail_example : is_data [x6a; x4d; xff; xff; x42; x42] = true /\ is_data [x01; x6a; x4d; xff; xff; x42] = false.
+Proof. split; reflexivity. Qed.
